@@ -18,12 +18,22 @@ META = dict(
                 'blocks, inner length beyond the available bytes, expired) are rejects with the cookie cleared. HMAC, the AES block '
                 'function and its inverse are universally quantified; the real primitives are supplied to the extracted model by the '
                 'harness so that the decision logic of the real code and of the model are compared on every single-bit flip, '
-                'truncation, extension, block swap, splice and cross-key transplant of real cookies.'),
+                'truncation, extension, block swap, splice and cross-key transplant of real cookies. The state an encryptor carries '
+                'between calls is explicit in the model (the two chaining vectors iv_enc / iv_dec of the cbc object of src/aes.cpp, one '
+                'object per aes_cipher per session_cookies): proved for EVERY history of encrypt/decrypt (save/load) calls on one object: '
+                'what encrypt issues and the vector it starts from depend only on the initial nonce and the earlier encrypt calls, never '
+                'on a decrypted (client presented) input (non-interference); load verdicts do not depend on the object state; objects with '
+                'different nonces never issue equal first blocks, whatever was presented to them and whatever they save. Histories with '
+                'decrypt-then-encrypt on one object (several objects from one factory, whole session_pool requests presenting the same '
+                'cookie and saving the same / prefix-sharing data) are run on the real code; the model must reproduce every issued byte '
+                'from the recovered nonce, and the oracle checks IV freshness / own-chain discipline on the cookies alone.'),
     level_note=('Trusted: Coq kernel; ExtrOcamlBasic extraction; the hand model of the C++ control flow (tied by correspondence only: '
                 'the anchored functions contain no loop-free integer leaf that tools/cxx2v.py can translate); unforgeability of HMAC and '
                 'indistinguishability of AES-CBC are assumptions, not theorems (the confidentiality sentence of the property is covered '
                 'only by the structural lemmas on IV chaining and by pairwise-distinctness checks on the real cipher texts); the harness '
-                'reads session_interface::temp_cookie_ through a private-access define.'),
+                'reads session_interface::temp_cookie_ through a private-access define; the openssl command line tool (enc -aes-*-ecb) '
+                'is the independent AES the oracle uses to recover IVs from first cipher blocks (if it is missing the raw block values '
+                'reported by a fresh cppcms cbc object are used and the evidence says so).'),
 )
 
 GEN = {
@@ -130,6 +140,9 @@ def oracle_kat(case, out):
                 return [('aes-primitive-missing', 'no block decryption reported', None)]
             if want and got[y] != want:
                 return [('aes-primitive-wrong', 'cppcms::crypto::cbc decryption of the FIPS-197 vector is wrong', None)]
+            ref = aes_ecb_dec(ct[2], [unhex(y)])
+            if ref is not None and ref[unhex(y)] != unhex(got[y]):
+                return [('aes-primitive-wrong', 'cppcms::crypto::cbc block decryption differs from AES (openssl enc -aes-ecb)', None)]
     elif not any(t.startswith('H=') for t in prims):
         return [('hmac-primitive-missing', 'no HMAC value reported', None)]
     return []
@@ -195,6 +208,13 @@ def parse_impl(out):
             prims.append(t)
         elif h in ('S=', 'X='):
             items.append((t[0], t[2:], None))
+        elif h == 'Q=':
+            body = t[2:]
+            if ':' in body:
+                ck, v = body.split(':', 1)
+                items.append(('Q', ck, v))
+            else:
+                items.append(('Q', None, body))
         elif h == 'L=':
             body = t[2:]
             if ':' in body:
@@ -211,12 +231,80 @@ def is_op(tok):
     return tok[:2] in ('S:', 'X:')
 
 
+def is_pool(case):
+    """pool lines (session_pool + session_interface with a cookie adapter) and http lines (the same requests through a real
+    cppcms::service over SCGI) share format, model and oracle"""
+    return case.startswith('pool ') or case.startswith('http ')
+
+
+def is_ctl(tok):
+    """tokens that produce no answer: clock changes, `new` (another encryptor object from the same factory), `obj:<k>`"""
+    return tok.startswith('now=') or tok == 'new' or tok.startswith('obj:')
+
+
 def is_cand(tok):
-    return not is_op(tok) and not tok.startswith('now=')
+    return not is_op(tok) and not is_ctl(tok) and not tok.startswith('Q~')
+
+
+def blocks16(b):
+    return [b[i:i + 16] for i in range(0, len(b) - len(b) % 16, 16)]
+
+
+def btable(prims):
+    """raw block decryptions printed by the harness: (key, cipher block) -> D_key(block)"""
+    t = {}
+    for x in prims:
+        if x.startswith('B='):
+            k, pl, y = x[2:].split(',')
+            t[(k, y)] = pl
+    return t
+
+
+def xor16(a, b):
+    return bytes(x ^ y for x, y in zip(a, b))
+
+
+def cbc_ops(ct):
+    return ct[3:]
+
+
+def cbc_items(out):
+    toks = out.split(' ')
+    return toks[0], [t for t in toks[1:] if t[:2] in ('I=', 'N=', 'E=', 'D=')], [t for t in toks[1:] if t[:2] == 'B=']
+
+
+def cbc_nonces(case, out):
+    """the two vectors each set_nonce_iv drew, as far as later calls reveal them:
+    encryption side = D(first cipher block) xor first plain block of the next encrypt, decryption side = first output
+    block xor D(first input block) of the next decrypt.  -> list of [ne or None, nd or None]"""
+    ct = case.split(' ')
+    head, items, prims = cbc_items(out)
+    bt = btable(prims)
+    res = []
+    curN = None
+    for tok, it in zip(cbc_ops(ct), items):
+        if tok == 'N':
+            curN = [None, None]
+            res.append(curN)
+        elif tok.startswith('I:'):
+            if it == 'I=ok':
+                curN = None
+        elif curN is not None and it[2:] not in ('EXC', '-'):
+            inp, outp = unhex(tok[2:]), unhex(it[2:])
+            if tok[0] == 'E' and curN[0] is None and len(outp) >= 16:
+                dd = bt.get((ct[2], hexs(outp[:16])))
+                if dd:
+                    curN[0] = xor16(unhex(dd), inp[:16])
+            if tok[0] == 'D' and curN[1] is None and len(inp) >= 16:
+                dd = bt.get((ct[2], hexs(inp[:16])))
+                if dd:
+                    curN[1] = xor16(unhex(dd), outp[:16])
+    return res
 
 
 def crashed(out):
-    return out.startswith('<crash') or out.startswith('<missing') or out.startswith('HARNESS-EXC') or out.startswith('BAD-CASE')
+    return (out.startswith('<crash') or out.startswith('<missing') or out.startswith('<notrun') or out.startswith('HARNESS-EXC')
+            or out.startswith('BAD-CASE'))
 
 
 def first_c0(items):
@@ -251,27 +339,63 @@ def model_line(case, out):
     """the scenario as the model sees it: same operations, candidates as explicit cookie strings, the first cipher
     block of the first issued cookie (the IV is its decryption) and the primitive values printed by the harness"""
     ct = case.split(' ')
-    if ct[0] == 'kat':
+    if ct[0] in ('kat', 'katseq'):
         return case
+    if ct[0] == 'cbc':
+        head, items, prims = cbc_items(out)
+        res = list(ct)
+        for j, (ne, nd) in enumerate(cbc_nonces(case, out)):
+            if ne is not None:
+                res.append('NE%d=%s' % (j, hexs(ne)))
+            if nd is not None:
+                res.append('ND%d=%s' % (j, hexs(nd)))
+        return ' '.join(res + prims)
     head, items, prims, extra = parse_impl(out)
     it = iter(items)
     if ct[0] == 'scn':
         res = ct[:4]
         start = 4
+        # the nonce of every encryptor object of side A is read off the first cookie that object issued
+        cur, nobj, have = 0, 1, set()
+        it2 = iter(items)
+        for tok in ct[start:]:
+            if tok == 'new':
+                cur, nobj = nobj, nobj + 1
+            elif tok.startswith('obj:'):
+                cur = int(tok[4:])
+            elif tok.startswith('now='):
+                pass
+            else:
+                item = next(it2, None)
+                if item and is_op(tok) and cur not in have and item[1] not in ('EXC', '-', '', None):
+                    ci = cpp_b64decode(unhex(item[1])[1:])
+                    if ci is not None and len(ci) >= 16:
+                        have.add(cur)
+                        res.append('C0@%d=%s' % (cur, hexs(ci[:16])))
     else:
         a, start = pool_split(ct)
-        res = [t for t in ct[:start] if not t.startswith('prim=')]
+        res = ['pool'] + [t for t in ct[1:start] if not t.startswith('prim=')]
         if head == 'ok':
             s_item = next(it, None)   # the issued session cookie
-    c0 = first_c0(items)
-    if c0:
-        res.append(c0)
+        c0 = first_c0(items)
+        if c0:
+            res.append(c0)
     for tok in ct[start:]:
-        if tok.startswith('now='):
+        if is_ctl(tok):
             res.append(tok)
         elif is_op(tok):
             next(it, None)
             res.append(tok)
+        elif tok.startswith('Q~'):
+            item = next(it, None)
+            c0 = '-'
+            if item and item[2] and item[2] != 'EXC':
+                iss = item[2].split(',')[-1]
+                if iss != '-':
+                    ci = cpp_b64decode(unhex(iss)[1:])
+                    if ci is not None and len(ci) >= 16:
+                        c0 = hexs(ci[:16])
+            res.append('Q=%s~%s~%s' % (item[1] if item and item[1] is not None else 'BADSPEC', tok.split('~')[2], c0))
         else:
             item = next(it, None)
             res.append('L=' + (item[1] if item and item[1] is not None else 'BADSPEC'))
@@ -292,14 +416,22 @@ def canon_impl(case, out):
     """implementation answer in the vocabulary of the model driver"""
     if crashed(out):
         return out
-    if case.startswith('kat '):
+    if case.startswith('kat ') or case.startswith('katseq '):
         return out.split(' ')[0]
+    if case.startswith('cbc '):
+        head, items, prims = cbc_items(out)
+        return ' '.join([head] + items)
     head, items, prims, extra = parse_impl(out)
-    pool = case.startswith('pool ')
+    pool = is_pool(case)
     res = [head]
     for kind, ck, v in items:
         if kind in 'SX':
             res.append('%s=%s' % (kind, ck))
+        elif kind == 'Q':
+            if v and v not in ('EXC', 'BADSPEC'):
+                l, kvd, clr, iss = v.split(',')
+                v = '%s,%s,%s,%s' % (l, hexs(save_data(parse_kvdump(kvd))), clr, iss)
+            res.append('Q=' + str(v))
         else:
             if pool and v and v.startswith('A,'):
                 _, kvd, clr = v.split(',')
@@ -337,6 +469,63 @@ def forged_expect(tok, now, cfgL):
     return None
 
 
+class IvDiscipline:
+    """What an encrypting backend must do with its chaining vector so that it reveals neither the payload nor the
+    equality of payloads, evaluated on the cookies alone.  The first cipher block of an aes cookie is E(IV) (the first
+    plain block is zero), so IV = D(first block).  Per encryptor object: the IV of an issued cipher text must be fresh
+    (the object's random nonce) or the last cipher block that SAME object produced; it must never be a block of a
+    cookie that was presented to the object, nor any other block that already left or entered the server; and no two
+    issued cipher texts under one key may start with the same block (equal IV: equal payloads give equal cookies,
+    payloads with a common prefix give cookies with a common prefix)."""
+
+    def __init__(self, ckhex, dl, bt):
+        self.ck, self.dl, self.bt = ckhex, dl, bt
+        self.last = {}          # object -> last cipher block it produced
+        self.seen = {}          # object -> blocks of the cookies presented to it
+        self.public = set()     # every block that was issued or presented so far
+        self.first = set()      # first blocks of the issued cipher texts
+        self.iv_of = []         # (object, IV) per issued cipher text
+        self.issued_blocks = set()
+
+    def presented(self, obj, cookie):
+        ci = cpp_b64decode(cookie[1:]) if cookie[:1] == b'C' else None
+        if ci:
+            b = blocks16(ci)
+            self.seen.setdefault(obj, set()).update(b)
+            self.public.update(b)
+
+    def issued(self, obj, ci):
+        bad = []
+        body = ci[:len(ci) - self.dl]
+        c0 = body[:16]
+        ivh = self.bt.get((self.ck, hexs(c0)))
+        if len(body) < 32 or len(body) % 16:
+            return [('aes-ciphertext-shape', 'issued aes cipher text is not whole blocks (at least two) followed by the tag')]
+        if ivh is None:
+            return [('bad-output', 'the harness reported no block decryption for the first block of an issued cookie')]
+        iv = unhex(ivh)
+        own = self.last.get(obj)
+        if c0 in self.first:
+            bad.append(('aes-first-block-repeated', 'two cipher texts issued under one key start with the same block (same IV %s): equal '
+                        'payloads give equal cookies, a common prefix stays visible' % ivh))
+        if iv != own:
+            if iv in self.seen.get(obj, ()):
+                bad.append(('aes-iv-from-presented-cookie', 'the IV %s of an issued cookie is a cipher block of a cookie the client presented '
+                            'to this encryptor before (decrypt feeds the encryption chain): the client chooses the IV' % ivh))
+            elif iv in self.public:
+                bad.append(('aes-iv-predictable', 'the IV %s of an issued cookie is a cipher block that was already public and is not the '
+                            'last block this encryptor produced' % ivh))
+        rep = [b for b in blocks16(body) if b in self.issued_blocks]
+        if rep and c0 not in self.first:
+            bad.append(('aes-block-repeated', 'a cipher block (%s) occurs in two issued cipher texts under one key: equal chained inputs are visible' % hexs(rep[0])))
+        self.issued_blocks.update(blocks16(body))
+        self.iv_of.append((obj, iv))
+        self.first.add(c0)
+        self.last[obj] = body[-16:]
+        self.public.update(blocks16(body))
+        return bad
+
+
 def oracle_scn(case, out):
     """-> list of (key, description, index of the offending token or None)"""
     ct = case.split(' ')
@@ -363,11 +552,20 @@ def oracle_scn(case, out):
     saves = {}      # cipher text -> (data, timeout)
     texts = {}      # cookie text -> (data, timeout)
     issued = set()
+    aesA = mA is not None and mA[0] == 'aes'
+    ivs = IvDiscipline(hexs(mA[1]), mac_dlen(cfgA), btable(prims)) if aesA else None
+    cur, nobj = 0, 1
     it = iter(items)
     for ti in range(4, len(ct)):
         tok = ct[ti]
         if tok.startswith('now='):
             now = int(tok[4:])
+            continue
+        if tok == 'new':
+            cur, nobj = nobj, nobj + 1
+            continue
+        if tok.startswith('obj:'):
+            cur = int(tok[4:])
             continue
         item = next(it, None)
         if item is None:
@@ -396,6 +594,9 @@ def oracle_scn(case, out):
                 plain = (le64(dt[1]) + dt[0]) if dt else unhex(q[1])
                 if len(plain) >= 12 and plain[8:] in ci:
                     bad.append(('aes-plaintext-visible', 'the payload occurs verbatim in the cipher text', ti))
+                for key, desc in ivs.issued(cur, ci):
+                    bad.append((key, desc, ti))
+                PLAIN_CHECKS.append((hexs(mA[1]), mac_dlen(cfgA), ci, plain, reduce_case(case, ti)))
             issued.add(ci)
             rk = raw_mac_key(cfgA)
             if rk:
@@ -413,6 +614,8 @@ def oracle_scn(case, out):
             continue
         cookie = unhex(ck)
         forged = tok.startswith('fa:') or tok.startswith('ft:')
+        if ivs is not None and cfgB == '=':
+            ivs.presented(cur, cookie)
         if v == 'EXC':
             if mB is not None:
                 bad.append(('load-throws', 'load raised an exception on a client supplied cookie', ti))
@@ -515,6 +718,8 @@ def oracle_pool(case, out):
         return [('crash', 'the harness died / raised outside the code under test: ' + out[:300], None)]
     head, items, prims, extra = parse_impl(out)
     bad = []
+    if head.startswith('httperr'):
+        return []          # the test service could not be started / reached: nothing was evaluated (counted in the coverage)
     want = pool_prim_token(a)
     now0, timeout = int(a['now']), int(a['timeout'])
     kvs = [tuple(unhex(x) for x in kv.split(':')) for kv in a.get('kv', '').split(';') if ':' in kv]
@@ -542,7 +747,29 @@ def oracle_pool(case, out):
         if issued[:1] != b'C' or any(c not in D6 for c in issued[1:]):
             bad.append(('issued-cookie-not-urlsafe', 'issued session cookie is not C + base64url text', None))
             return bad
-    ci0 = cpp_b64decode(issued[1:]) if issued else None
+    mat = material(want)
+    aes = mat is not None and mat[0] == 'aes'
+    ivs = IvDiscipline(hexs(mat[1]), 20 if want.startswith('aesk/') else mac_dlen(want), btable(prims)) if aes else None
+    how = a.get('expire', 'fixed')
+    saved = {}       # issued cipher text -> (cookie text, kv list in map order, expiry)
+    nreq = 0         # every request runs on its own encryptor object
+
+    def record(text, kvl, exp):
+        ci = cpp_b64decode(text[1:])
+        if aes:
+            if ci in saved:
+                bad.append(('aes-equal-ciphertexts', 'two requests were answered with the same session cookie', None))
+            for key, desc in ivs.issued(nreq, ci):
+                bad.append((key, desc, None))
+            PLAIN_CHECKS.append((hexs(mat[1]), ivs.dl, ci, le64(exp) + save_data(kvl), case))
+        elif mat is not None and mat[0] == 'hmac':
+            dl_ = DLEN[mat[1]]
+            if ci[:len(ci) - dl_] != le64(exp) + save_data(kvl):
+                bad.append(('issued-cookie-plaintext-wrong', 'the signed session cookie does not carry the expiry and data of the request', None))
+        saved[ci] = (text, kvl, exp)
+
+    if kvs and issued:
+        record(issued, sorted(dict(kvs).items()), now0 + timeout)
     now = now0
     for ti in range(start, len(ct)):
         tok = ct[ti]
@@ -558,34 +785,228 @@ def oracle_pool(case, out):
             bad.append(('bad-output', 'candidate not understood by the harness: ' + tok, ti))
             continue
         cookie = unhex(ck)
-        forged = tok.startswith('fa:') or tok.startswith('ft:')
+        ctok = tok.split('~')[1] if kind == 'Q' else tok
+        forged = ctok.startswith('fa:') or ctok.startswith('ft:')
+        nreq += 1
+        if ivs is not None:
+            ivs.presented(nreq, cookie)
         if v == 'EXC':
             if not forged:
                 bad.append(('load-throws', 'session load raised an exception on a client supplied cookie', ti))
             continue
         f = v.split(',')
-        if f[0] == 'R':
-            if cookie and f[1] != '1':
-                bad.append(('reject-not-cleared', 'a rejected non-empty cookie was not cleared', ti))
-            if kvs and cookie == issued and now <= now0 + timeout:
-                bad.append(('valid-cookie-rejected', 'the issued, unexpired session cookie was rejected', ti))
-            continue
-        if forged:
-            continue
-        if now > now0 + timeout:
-            bad.append(('expired-accepted', 'session accepted after its expiry', ti))
         ci = cpp_b64decode(cookie[1:]) if cookie[:1] == b'C' else None
-        if ci is None or ci != ci0:
-            bad.append(('accepted-unissued-ciphertext', 'accepted cookie does not decode to the issued cipher text', ti))
-        if parse_kvdump(f[1]) != kvs:
-            bad.append(('accepted-wrong-data', 'session content differs from what was saved', ti))
+        if kind == 'Q':
+            accepted, kvd, clr, iss = f[0] == '1', f[1], f[2], f[3]
+        else:
+            accepted, kvd, clr, iss = f[0] == 'A', (f[1] if f[0] == 'A' else '-'), (f[2] if f[0] == 'A' else f[1]), '-'
+        if not accepted:
+            if cookie and clr != '1':
+                bad.append(('reject-not-cleared', 'a rejected non-empty cookie was not cleared', ti))
+            if ci in saved and saved[ci][0] == cookie and now <= saved[ci][2]:
+                bad.append(('valid-cookie-rejected', 'an issued, unexpired session cookie was rejected', ti))
+        elif not forged:
+            if ci is None or ci not in saved:
+                bad.append(('accepted-unissued-ciphertext', 'accepted cookie does not decode to a cipher text this pool issued', ti))
+            else:
+                if now > saved[ci][2]:
+                    bad.append(('expired-accepted', 'session accepted after its expiry', ti))
+                if parse_kvdump(kvd) != saved[ci][1]:
+                    bad.append(('accepted-wrong-data', 'session content differs from what was saved', ti))
+        if kind != 'Q' or forged:
+            continue
+        # the rest of the request: values set, session saved on the SAME encryptor object that just decrypted
+        sets = [tuple(unhex(x) for x in kv.split(':')) for kv in tok.split('~')[2].split(';') if ':' in kv]
+        base = dict(saved[ci][1]) if accepted and ci in saved else {}
+        data = dict(base)
+        data.update(sets)
+        if iss == '-':
+            if data != base:
+                bad.append(('session-change-not-saved', 'the request changed the session but no session cookie was issued', ti))
+            continue
+        text = unhex(iss)
+        if text[:1] != b'C' or any(c not in D6 for c in text[1:]):
+            bad.append(('issued-cookie-not-urlsafe', 'issued session cookie is not C + base64url text', ti))
+            continue
+        exp = saved[ci][2] if (accepted and ci in saved and how == 'fixed' and base) else now + timeout
+        nb = len(bad)
+        record(text, sorted(data.items()), exp)
+        bad[nb:] = [(k, d, ti) for k, d, _ in bad[nb:]]
     return bad
 
 
+_ECB = {}
+ECB_STATE = {'available': None, 'blocks': 0}
+# (cipher key hex, tag length, issued cipher text, plaintext that was saved, replay text): filled by the oracles, verified in
+# one batch per key by run_differential with the independent AES (CBC decryption done here, block function by openssl)
+PLAIN_CHECKS = []
+
+
+def plain_of_aes_ciphertext(ci, dl, ref):
+    """independent aes_cipher decryption: body = whole blocks, first plain block discarded, then uint32 length and the payload"""
+    body = ci[:len(ci) - dl]
+    bl = blocks16(body)
+    if len(bl) < 2 or len(body) % 16:
+        return None
+    pt = b''.join(xor16(ref[bl[i]], bl[i - 1]) for i in range(1, len(bl)))
+    n = struct.unpack('<I', pt[:4])[0]
+    if n > len(pt) - 4:
+        return None
+    return pt[4:4 + n]
+
+
+def aes_ecb_dec(keyhex, blocks):
+    """independent AES (the openssl command line tool, ECB, no padding): {cipher block: D_key(block)}, None if not available"""
+    import subprocess
+    need = sorted(set(b for b in blocks if (keyhex, b) not in _ECB))
+    if need and ECB_STATE['available'] is not False:
+        try:
+            p = subprocess.run(['openssl', 'enc', '-d', '-aes-%d-ecb' % (len(keyhex) * 4), '-nopad', '-K', keyhex],
+                               input=b''.join(need), stdout=subprocess.PIPE, stderr=subprocess.PIPE, timeout=60)
+            ok = p.returncode == 0 and len(p.stdout) == 16 * len(need)
+        except Exception:
+            ok = False
+        if not ok:
+            ECB_STATE['available'] = False
+            return None
+        ECB_STATE['available'] = True
+        ECB_STATE['blocks'] += len(need)
+        for i, b in enumerate(need):
+            _ECB[(keyhex, b)] = p.stdout[16 * i:16 * i + 16]
+    if ECB_STATE['available'] is False:
+        return None
+    return {b: _ECB[(keyhex, b)] for b in blocks}
+
+
+def oracle_cbc(case, out):
+    """cppcms::crypto::cbc as an object: NIST SP 800-38A CBC where encrypt chains ONLY through the vector set by set_iv /
+    set_nonce_iv and the cipher blocks encrypt itself produced, decrypt ONLY through the vector set and the cipher blocks
+    decrypt itself consumed; no use before a vector was set; a wrong IV size is refused and changes nothing."""
+    ct = case.split(' ')
+    if crashed(out):
+        return [('crash', 'the harness died: ' + out[:300], None)]
+    head, items, prims = cbc_items(out)
+    name, keyhex = ct[1], ct[2]
+    sz = CBC.get(name)
+    if sz is None:
+        return [] if head == 'nocbc' else [('cbc-unknown-name-accepted', 'cbc::create accepted the name ' + name, None)]
+    if len(unhex(keyhex)) != sz:
+        return [] if head == 'keyerr' else [('cbc-key-size-accepted', 'set_key accepted a key of the wrong size', None)]
+    if head != 'ok':
+        return [('valid-config-refused', 'a usable cbc name/key was refused: ' + head, None)]
+    ops = ct[3:]
+    if len(items) != len(ops):
+        return [('bad-output', 'answers do not match operations', None)]
+    blocks = []
+    for tok, it in zip(ops, items):
+        if tok[0] in 'ED' and it[2:] not in ('EXC', '-'):
+            blocks += blocks16(unhex(it[2:]) if tok[0] == 'E' else unhex(tok[2:]))
+    dec = aes_ecb_dec(keyhex, blocks)
+    bt = btable(prims)
+    if dec is None:
+        dec = {b: unhex(bt[(keyhex, hexs(b))]) for b in blocks if (keyhex, hexs(b)) in bt}
+    else:
+        for b in blocks:
+            if (keyhex, hexs(b)) in bt and unhex(bt[(keyhex, hexs(b))]) != dec[b]:
+                return [('aes-primitive-wrong', 'a raw block decryption through cppcms::crypto::cbc (fresh object, zero IV) differs from AES', None)]
+    bad = []
+    UNSET, NONCE = 'unset', 'nonce'
+    iv_e = iv_d = UNSET
+    public = set()
+    nonces = []
+    for ti, (tok, it) in enumerate(zip(ops, items), 3):
+        r = it[2:]
+        if tok == 'N':
+            iv_e = iv_d = NONCE
+            continue
+        if tok[0] == 'I':
+            iv = unhex(tok[2:])
+            if len(iv) == 16:
+                if r != 'ok':
+                    bad.append(('cbc-set-iv-refused', 'set_iv with 16 bytes raised', ti))
+                else:
+                    iv_e = iv_d = iv
+            elif r != 'EXC':
+                bad.append(('cbc-bad-iv-size-accepted', 'set_iv accepted %d bytes' % len(iv), ti))
+            continue
+        inp = unhex(tok[2:])
+        cur = iv_e if tok[0] == 'E' else iv_d
+        if cur == UNSET:
+            if r != 'EXC':
+                bad.append(('cbc-uninitialised-iv-used', 'encrypt/decrypt worked before any IV was set', ti))
+            continue
+        if r == 'EXC':
+            bad.append(('cbc-throws', 'encrypt/decrypt raised on a keyed object with an IV', ti))
+            continue
+        outp = unhex(r)
+        if len(outp) != len(inp):
+            bad.append(('bad-output', 'output length differs', ti))
+            continue
+        ib, ob = blocks16(inp), blocks16(outp)
+        for i in range(len(ib)):
+            cblock = ob[i] if tok[0] == 'E' else ib[i]
+            if cblock not in dec:
+                bad.append(('bad-output', 'no raw block value available', ti))
+                break
+            x = dec[cblock]
+            if tok[0] == 'E':
+                prev_needed = xor16(x, ib[i])        # the vector this block was actually chained to
+            else:
+                prev_needed = xor16(x, ob[i])
+            if cur == NONCE:
+                # first use after set_nonce_iv: whatever the encryption vector is, it must be new
+                if tok[0] == 'E':
+                    if prev_needed in public or prev_needed in nonces:
+                        bad.append(('cbc-nonce-not-fresh', 'after set_nonce_iv the encryption vector equals a block or nonce seen before', ti))
+                    nonces.append(prev_needed)
+            elif prev_needed != cur:
+                if tok[0] == 'E':
+                    bad.append(('cbc-encrypt-chain', 'encrypt did not start from its own vector (the IV that was set, or the last cipher block '
+                                'encrypt itself produced): used %s, expected %s' % (hexs(prev_needed), hexs(cur)), ti))
+                else:
+                    bad.append(('cbc-decrypt-chain', 'decrypt did not start from its own vector (the IV that was set, or the last cipher block '
+                                'decrypt itself consumed): used %s, expected %s' % (hexs(prev_needed), hexs(cur)), ti))
+                break
+            cur = cblock
+        if tok[0] == 'E':
+            iv_e = cur
+        else:
+            iv_d = cur
+        public.update(ib)
+        public.update(ob)
+    return bad
+
+
+def oracle_katseq(case, out):
+    """one crypto::hmac / message_digest object, several messages in a row: every tag is the RFC 2104 HMAC / the hash of its own
+    message only (readout leaves the object ready for the next message)"""
+    ct = case.split(' ')
+    if crashed(out):
+        return [('crash', 'the harness died: ' + out[:300], None)]
+    toks = out.split(' ')
+    if toks[0] != 'ok':
+        return [('valid-config-refused', 'hash %s not available: %s' % (ct[1], out[:80]), None)]
+    tags = [t[2:] for t in toks[1:] if t.startswith('T=')]
+    msgs = ct[3:]
+    if len(tags) != len(msgs):
+        return [('bad-output', 'answers do not match messages', None)]
+    for i, (m, tag) in enumerate(zip(msgs, tags)):
+        want = hashlib.new(ct[1], unhex(m)).digest() if ct[2] == 'md' else pyhmac.new(unhex(ct[2]), unhex(m), ct[1]).digest()
+        if unhex(tag) != want:
+            return [('hmac-object-state-leaks' if i else 'hmac-primitive-wrong',
+                     'message %d on a reused %s object: tag differs from the %s of that message alone' %
+                     (i, 'message_digest' if ct[2] == 'md' else 'crypto::hmac', 'hash' if ct[2] == 'md' else 'RFC 2104 HMAC'), None)]
+    return []
+
+
 def oracle_all(case, out):
+    if case.startswith('katseq '):
+        return oracle_katseq(case, out)
+    if case.startswith('cbc '):
+        return oracle_cbc(case, out)
     if case.startswith('scn '):
         return oracle_scn(case, out)
-    if case.startswith('pool '):
+    if is_pool(case):
         return oracle_pool(case, out)
     if case.startswith('kat '):
         return oracle_kat(case, out)
@@ -600,13 +1021,16 @@ def oracle(case, out):
 
 def reduce_case(case, ti):
     """smallest scenario that still contains the offending candidate: all saves and clock changes, one candidate"""
-    if ti is None or case.startswith('kat '):
+    if ti is None or case.startswith('kat') or case.startswith('cbc '):
         return case
     ct = case.split(' ')
     if ct[0] == 'scn':
         start = 4
     else:
         start = pool_split(ct)[1]
+    if ti >= start and not is_cand(ct[ti]) and ct[0] == 'scn':
+        # a save that went wrong depends on everything the encryptor objects saw before it (loads included)
+        return ' '.join(ct[:ti + 1])
     keep = ct[:start] + [t for i, t in enumerate(ct[start:], start) if i == ti or not is_cand(t)]
     return ' '.join(keep)
 
@@ -979,6 +1403,30 @@ def gen_pool(ctx):
         ops += ['b:0,0,$+h00', 'c:0,0,$+h41', 'c:0,0,$+h3d', 'c:0,1,$', 'raw:-', 'raw:43', 'raw:4341414141']
         ops += ['raw:' + hexs(b'C' + b64e(rb(rng, n))) for n in (19, 20, 36, 52, 68, 84)]
         cases.append(line(now, opts, timeout, kvs, ops, rng.choice(['fixed', 'renew', 'browser'])))
+    # whole requests: every request gets its own encryptor object from the pool's factory and does load (decrypt) then
+    # save (encrypt) on it.  The same cookie presented and the same values set, several times: the answers must differ
+    reqcfgs = [g for g in good if pool_prim_token({k: hx(v) for k, v in g.items()}).split('/')[0] in ('aes', 'aesk')]
+    reqcfgs = reqcfgs if not ctx.quick() else rng.sample(reqcfgs, min(len(reqcfgs), 12))
+    reqcfgs += rng.sample([g for g in good if g not in reqcfgs], 3)
+    for opts in reqcfgs:
+        for expire in (['fixed', 'renew'] if not ctx.quick() else [rng.choice(['fixed', 'renew', 'browser'])]):
+            now = rng.choice([1000, 1000000000])
+            timeout = rng.choice([10, 3600])
+            kvs = [(b'a', rb(rng, 4)), (b'k', rb(rng, 20))]
+            v1, v2 = rb(rng, 40), rb(rng, 5)
+            q = lambda c, sets: 'Q~%s~%s' % (c, ';'.join('%s:%s' % (hexs(k), hexs(v)) for k, v in sets))
+            ops = [q('c:0,0,$', [(b'k', v1)]), q('c:0,0,$', [(b'k', v1)]), q('c:0,0,$', [(b'k', v1)]),     # cookies 1,2,3: same request thrice
+                   q('c:0,0,$', [(b'k', v1 + b'x')]), q('c:0,0,$', [(b'k', v1 + b'y')]),                   # 4,5: long common prefix
+                   q('c:1,0,$', [(b'b', v2)]), q('c:2,0,$', [(b'b', v2)]),                                 # 6,7: equal data, different cookies presented
+                   q('c:1,0,$', []),                                                                       # 8: nothing changed
+                   'c:1,0,$', 'c:6,0,$', 'c:7,0,$',
+                   q('bflip:0:3:1', [(b'k', v1)]), q('bflip:0:3:1', [(b'k', v1)]),                         # 9,10: tampered -> new session, twice
+                   q('raw:-', [(b'k', v1)]), q('raw:-', [(b'k', v1)]),                                     # 11,12: no cookie, twice
+                   'now=%d' % (now + timeout // 2),
+                   q('c:1,0,$', []), q('c:1,0,$', []),                                                     # 13,14: renew re-issues unchanged data
+                   'now=%d' % (now + timeout + 1),
+                   q('c:0,0,$', [(b'k', v1)]), q('c:0,0,$', [(b'k', v1)])]                                 # 15,16: expired -> new session, twice
+            cases.append(line(now, opts, timeout, kvs, ops, expire))
     # empty session: nothing is issued
     cases.append(line(1000, dict(enc='hmac', key=hk(16)), 10, [], ['raw:-', 'raw:43']))
     # configurations that must be refused
@@ -1018,8 +1466,147 @@ def gen_kat(ctx):
     return cases
 
 
+def gen_katseq(ctx):
+    rng = ctx.rng
+    cases = []
+    for alg in ALGS:
+        for kl in (0, 16, 64, 65, 128, 129):
+            if ctx.quick() and rng.random() < 0.5:
+                continue
+            msgs = [rkey(rng, rng.choice([0, 1, 55, 56, 63, 64, 65, 111, 112, 127, 128, 129, 300])) for _ in range(rng.randrange(2, 6))]
+            msgs += [msgs[0], '-', msgs[0]]       # the same message again, after an empty one
+            cases.append('katseq %s %s %s' % (alg, rkey(rng, kl), ' '.join(msgs)))
+        msgs = [rkey(rng, rng.choice([0, 1, 55, 56, 64, 119, 120, 128, 300])) for _ in range(4)]
+        cases.append('katseq %s md %s %s - %s' % (alg, ' '.join(msgs), msgs[0], msgs[0]))
+    return cases
+
+
+def gen_cbc(ctx):
+    """the cbc object itself: every order of set_iv / set_nonce_iv / encrypt / decrypt, aimed at the two chaining vectors"""
+    rng = ctx.rng
+    cases = []
+
+    def blk(n):
+        return hexs(rb(rng, 16 * n))
+    names = [('aes128', 16), ('aes192', 24), ('aes256', 32), ('aes', 16), ('AES-256', 32), ('aes-192', 24)]
+    for nm, sz in names:
+        key = rkey(rng, sz)
+        iv = rkey(rng, 16)
+        x2 = blk(2)
+        pats = [
+            ['I:' + iv, 'E:' + blk(1), 'D:' + blk(1), 'E:' + blk(1), 'D:' + blk(1)],          # alternate: each side keeps its own chain
+            ['I:' + iv, 'D:' + blk(2), 'E:' + blk(2), 'E:' + blk(1)],                          # decrypt first, then encrypt from the IV
+            ['I:' + iv, 'E:' + x2, 'I:' + iv, 'E:' + x2, 'I:' + iv, 'D:' + x2, 'I:' + iv, 'D:' + x2],   # set_iv resets BOTH sides
+            ['I:' + iv, 'E:' + x2, 'D:' + x2, 'I:' + rkey(rng, 16), 'D:' + x2, 'E:' + x2],
+            ['N', 'E:' + blk(1), 'D:' + blk(1), 'E:' + blk(2), 'D:' + blk(2), 'E:-', 'D:-', 'E:' + blk(1), 'D:' + blk(1)],
+            ['N', 'D:' + blk(1), 'E:' + blk(1), 'N', 'E:' + blk(1), 'D:' + blk(1)],
+            ['E:' + blk(1)], ['D:' + blk(1)], ['I:' + rkey(rng, 15), 'E:' + blk(1)], ['I:' + rkey(rng, 17), 'D:' + blk(1)], ['I:-', 'E:' + blk(1)],
+            ['I:' + iv, 'I:' + rkey(rng, 8), 'E:' + blk(1), 'D:' + blk(1)],                    # a refused set_iv changes nothing
+            ['I:' + iv, 'E:-', 'D:-', 'E:' + blk(1), 'D:' + blk(1)],                           # zero length: vectors unchanged
+        ]
+        for _ in range(ctx.scale(3, 20)):
+            ops = [rng.choice(['I:' + rkey(rng, 16), 'N'])]
+            for _ in range(rng.randrange(2, 9)):
+                r = rng.random()
+                if r < 0.1:
+                    ops.append(rng.choice(['I:' + rkey(rng, 16), 'N']))
+                else:
+                    ops.append(rng.choice('ED') + ':' + blk(rng.choice([0, 1, 1, 2, 3])))
+            pats.append(ops)
+        # a decrypt of what was just encrypted and vice versa (the blocks then coincide with the chains)
+        pats.append(['I:' + iv, 'E:' + x2, 'D:' + x2, 'E:' + x2])
+        for ops in pats:
+            cases.append('cbc %s %s %s' % (nm, key, ' '.join(ops)))
+    cases.append('cbc aes512 %s I:%s E:%s' % (rkey(rng, 16), rkey(rng, 16), blk(1)))
+    cases.append('cbc des %s I:%s E:%s' % (rkey(rng, 16), rkey(rng, 16), blk(1)))
+    cases.append('cbc aes128 %s I:%s E:%s' % (rkey(rng, 24), rkey(rng, 16), blk(1)))
+    cases.append('cbc aes256 %s I:%s E:%s' % (rkey(rng, 16), rkey(rng, 16), blk(1)))
+    return cases
+
+
+def gen_hist(ctx):
+    """histories on encryptor OBJECTS: decrypt (load) followed by encrypt (save) on one object, with cookies other than the one
+    just issued, repeated with the same presented cookie and the same / prefix-sharing data over several objects"""
+    rng = ctx.rng
+    cases = []
+    cfgs = [c for c in configs(ctx)]
+    aes = [c for c in cfgs if not c.startswith('hmac/')]
+    hm = [c for c in cfgs if c.startswith('hmac/')]
+    pick = (rng.sample(aes, min(len(aes), 14)) + rng.sample(hm, 3)) if ctx.quick() else cfgs
+    for cfg in pick:
+        now = rng.choice([5, 1000000000, 2 ** 31 + 1])
+        t = now + 100
+        d = [hexs(rb(rng, n)) for n in (3, 24, 40, 0)]
+        pre = rb(rng, 40)
+        dp = [hexs(pre + rb(rng, 8)), hexs(pre + rb(rng, 8))]          # common 40-byte prefix
+        S = lambda x: 'S:%s:%d' % (x, t)
+        # A. load an OLDER cookie, then save: the save must continue the object's own chain
+        cases.append('scn %s = now=%d %s %s c:0,0,$ %s c:0,0,$ c:1,0,$ %s c:2,0,$ c:0,0,$ %s' % (cfg, now, S(d[0]), S(d[1]), S(d[1]), S(d[2]), S(d[2])))
+        # B. every request on its own object: the same cookie presented, the same data saved (three times), then prefix-sharing data
+        ops = [S(d[0])]
+        for x in (d[1], d[1], d[1], dp[0], dp[1], dp[0]):
+            ops += ['new', 'c:0,0,$', S(x)]
+        cases.append('scn %s = now=%d %s' % (cfg, now, ' '.join(ops)))
+        # C. two objects used alternately, each loading what the other issued
+        cases.append('scn %s = now=%d %s new %s obj:0 c:1,0,$ %s obj:1 c:0,0,$ %s obj:0 c:3,0,$ c:2,0,$ %s obj:1 %s' %
+                     (cfg, now, S(d[0]), S(d[0]), S(d[1]), S(d[1]), S(d[2]), S(d[2])))
+        # D. rejected cookies between saves do not reach the cbc object; accepted forged ones (made with the key) do
+        clen = cipher_len(cfg, 3 + 8)
+        ops = [S(d[0]), S(d[1]), 'bflip:0:%d:%d' % (rng.randrange(clen), rng.randrange(8)), S(d[1]), 'b:0,0,-1', 'raw:-', 'raw:43', S(d[1])]
+        if cfg.startswith('aes/'):
+            seed = rkey(rng, 3)
+            ops += ['fa:3:20:0:%s:%d' % (seed, t), S(d[1]), 'new', 'fa:3:20:0:%s:%d' % (seed, t), S(d[1]), 'new', 'fa:4:30:0:%s:%d' % (seed, t), S(d[1]),
+                    'fa:3:21:0:%s:%d' % (seed, now - 1), S(d[1])]
+        cases.append('scn %s = now=%d %s' % (cfg, now, ' '.join(ops)))
+        # E. a cookie made by another encryptor with the same keys (cfgB side loads only; A keeps saving)
+        cases.append('scn %s %s now=%d %s c:0,0,$ %s c:1,0,$ c:0,0,$ %s' % (cfg, cfg, now, S(d[0]), S(d[0]), S(d[0])))
+        # F. random interleavings
+        for _ in range(ctx.scale(2, 8)):
+            ops, nck, nobj = [S(d[0])], 1, 1
+            for _ in range(rng.randrange(6, 16)):
+                r = rng.random()
+                if r < 0.4:
+                    ops.append(S(rng.choice(d + dp)))
+                    nck += 1
+                elif r < 0.8:
+                    ops.append('c:%d,0,$' % rng.randrange(nck))
+                elif r < 0.9:
+                    ops.append('new')
+                    nobj += 1
+                else:
+                    ops.append('obj:%d' % rng.randrange(nobj))
+            ops.append(S(d[1]))
+            cases.append('scn %s = now=%d %s' % (cfg, now, ' '.join(ops)))
+    return cases
+
+
+def gen_http(ctx, pool_cases):
+    """the request histories of the pool lines once more, through a real cppcms::service (SCGI): only configurations given
+    inline (no key files) and only requests (Q) whose cookie is plain base64url text"""
+    rng = ctx.rng
+    out = []
+    for c in pool_cases:
+        if 'Q~' not in c or 'keyfile=' in c:
+            continue
+        ct = c.split(' ')
+        a, start = pool_split(ct)
+        ops = []
+        for t in ct[start:]:
+            if t.startswith('now='):
+                ops.append(t)
+            elif t.startswith('Q~') and not t.startswith('Q~cflip'):
+                ops.append(t)
+            elif not t.startswith('Q~'):
+                pass          # load-only candidates are pool-only; as a request without changes they would shift the indices
+        # indices of issued cookies must stay aligned: only Q tokens push one, in both scenario kinds
+        out.append('http ' + ' '.join(ct[1:start] + ops))
+    n = ctx.scale(8, 40)
+    return out if len(out) <= n else rng.sample(out, n)
+
+
 def gen_cases(ctx):
-    return gen_kat(ctx) + gen_scn(ctx) + gen_pool(ctx)
+    pool_cases = gen_pool(ctx)
+    return gen_kat(ctx) + gen_katseq(ctx) + gen_cbc(ctx) + gen_hist(ctx) + gen_scn(ctx) + pool_cases + gen_http(ctx, pool_cases)
 
 
 # ------------------------------------------------------------------------------------------
@@ -1043,53 +1630,102 @@ def run_differential(ctx, cases, exe, mexe):
     import time, hashlib as hl
     cov = ctx.coverage
     t0 = time.time()
-    rc, out_i, err = vlib.run_lines_parallel(exe, cases, env={'ASAN_OPTIONS': 'detect_leaks=0:abort_on_error=0'})
-    t1 = time.time()
-    cov['impl_wall_s'] = round(t1 - t0, 2)
+    env = {'ASAN_OPTIONS': 'detect_leaks=0:abort_on_error=0'}
+    rc, out_i, err = vlib.run_lines_parallel(exe, cases, env=env)
     if len(out_i) < len(cases):
         out_i = out_i + ['<missing>'] * (len(cases) - len(out_i))
+    # a line the process died on (sanitizer report, abort): mark it, then run the lines after it in a new process so
+    # that one crash neither hides the rest of the run nor blames the wrong line
+    restarts = 0
+    while restarts < 40:
+        k = next((i for i, o in enumerate(out_i) if o.startswith('<missing')), None)
+        if k is None:
+            break
+        out_i[k] = '<crash rc=%s> %s' % (rc, err[-300:].replace('\n', ' | '))
+        ctx.broke('implementation harness died on a case (rc=%s)' % rc, cases[k][:300] + '\n' + err[-1500:])
+        j = k + 1
+        while j < len(out_i) and out_i[j].startswith('<missing'):
+            j += 1
+        if j > k + 1:
+            restarts += 1
+            rc2, o2, err = vlib.run_lines(exe, cases[k + 1:j], env=env)
+            rc = rc2 or rc
+            out_i[k + 1:k + 1 + len(o2[:j - k - 1])] = o2[:j - k - 1]
     for i, o in enumerate(out_i):
-        if o.startswith('<missing') and (i == 0 or not out_i[i - 1].startswith('<missing')):
-            out_i[i] = '<crash rc=%s> %s' % (rc, err[-300:].replace('\n', ' | '))
-    if any(o.startswith('<crash') or o.startswith('<missing') for o in out_i):
-        ctx.broke('implementation harness stopped answering (rc=%s)' % rc, err[-2000:])
+        if o.startswith('<missing'):     # too many crashes: the rest was not run
+            out_i[i] = '<notrun>'
+    t1 = time.time()
+    cov['impl_wall_s'] = round(t1 - t0, 2)
     hist = cov.setdefault('distribution', {})
     seen = set()
     nev = 0
     mlines, midx = [], []
     first_blocks = {}
+    del PLAIN_CHECKS[:]
+    to_verify = {}      # cipher key -> {first cipher block of an issued cookie: D(block) as the harness reported it}
     for i, c in enumerate(cases):
         o = out_i[i]
-        # across scenarios: every encrypting-encryptor object starts from a fresh random IV, so the first cipher block
-        # of its first cookie never repeats (same key material) -- equal payloads must not give equal cookies
-        if not crashed(o) and o.startswith('ok') and c.startswith('scn '):
-            mat = material(c.split(' ')[1])
-            c0 = first_c0(parse_impl(o)[1])
-            if mat and mat[0] == 'aes' and c0:
-                k0 = (mat, c0)
-                if k0 in first_blocks and first_blocks[k0] != c:
-                    ctx.fail('aes-nonce-repeated', 'two encryptor objects with the same keys started from the same IV '
-                             '(first cipher blocks equal): equal payloads give equal cookies\n  first block: ' + c0,
-                             reduce_case(first_blocks[k0], -1) + '\n' + reduce_case(c, -1))
-                first_blocks.setdefault(k0, c)
+        # across scenarios: no two cipher texts issued under the same key material may start with the same block (= the same
+        # IV): every encryptor object starts from a fresh random nonce and continues with its own last cipher block
+        if not crashed(o) and o.startswith('ok') and (c.startswith('scn ') or is_pool(c)):
+            tok0 = c.split(' ')[1]
+            mat = material(tok0[5:] if tok0.startswith('prim=') else tok0)
+            if mat and mat[0] == 'aes':
+                head_, items_, prims_, _ = parse_impl(o)
+                bt_ = btable(prims_)
+                ckh = hexs(mat[1])
+                for it_ in items_:
+                    txt = it_[1] if it_[0] in 'SX' else (it_[2].split(',')[-1] if it_[0] == 'Q' and it_[2] and ',' in it_[2] else None)
+                    if not txt or txt in ('EXC', '-'):
+                        continue
+                    ci_ = cpp_b64decode(unhex(txt)[1:])
+                    if ci_ is None or len(ci_) < 16:
+                        continue
+                    c0 = hexs(ci_[:16])
+                    if (ckh, c0) in bt_:
+                        to_verify.setdefault(ckh, {})[ci_[:16]] = unhex(bt_[(ckh, c0)])
+                    k0 = (mat, c0)
+                    if k0 in first_blocks and first_blocks[k0] != c:
+                        ctx.fail('aes-first-block-repeated', 'two cipher texts issued under the same keys in different histories start with the same '
+                                 'block (same IV): equal payloads give equal cookies\n  first block: ' + c0,
+                                 first_blocks[k0] + '\n' + c)
+                    first_blocks.setdefault(k0, c)
+        if o.startswith('<notrun'):      # the harness kept dying: the crashes are reported, this line was never run
+            cov['lines_not_run_after_repeated_crashes'] = cov.get('lines_not_run_after_repeated_crashes', 0) + 1
+            continue
         for key, desc, ti in oracle_all(c, o):
             red = reduce_case(c, ti)
             ctx.fail(key, desc + '\n  case: %s\n  impl: %s' % (red[:600], o[:300]), red)
-        if not crashed(o) and not c.startswith('kat '):
+        if not crashed(o) and not c.startswith('kat'):
             r = check_prims(parse_impl(o)[2])
             if r:
-                ctx.fail(r[0], r[1], reduce_case(c, -1) if not c.startswith('pool ') else c)
+                ctx.fail(r[0], r[1], reduce_case(c, -1) if not is_pool(c) else c)
         if crashed(o):
+            continue
+        if o.startswith('httperr'):
+            cov['http_lines_not_run'] = cov.get('http_lines_not_run', 0) + 1
             continue
         head, items, prims, extra = parse_impl(o)
         ct = c.split(' ')
-        if ct[0] == 'kat':
-            nev += 1
-            hist['kat:' + ct[1]] = hist.get('kat:' + ct[1], 0) + 1
+        if ct[0] in ('kat', 'katseq'):
+            nev += 1 if ct[0] == 'kat' else max(1, len(ct) - 3)
+            hist[ct[0] + ':' + ct[1]] = hist.get(ct[0] + ':' + ct[1], 0) + 1
             mlines.append(c)
             midx.append(i)
             continue
-        fam = ct[1].split('/')[0] if ct[0] == 'scn' else 'pool'
+        if ct[0] == 'cbc':
+            h_, its_, _ = cbc_items(o)
+            nev += max(1, len(its_))
+            for t_ in its_:
+                k = 'cbc:%s:%s' % (t_[0], 'EXC' if t_.endswith('=EXC') else 'ok')
+                hist[k] = hist.get(k, 0) + 1
+            if h_ != 'ok':
+                hist['cbc:' + h_] = hist.get('cbc:' + h_, 0) + 1
+            seen.add(hl.md5(c.encode()).digest())
+            mlines.append(model_line(c, o))
+            midx.append(i)
+            continue
+        fam = ct[1].split('/')[0] if ct[0] == 'scn' else ct[0]
         cfgL = (ct[1] if ct[2] == '=' else ct[2]) if ct[0] == 'scn' else ct[1]
         nev += max(1, len(items))
         if head != 'ok':
@@ -1098,17 +1734,31 @@ def run_differential(ctx, cases, exe, mexe):
         else:
             start = 4 if ct[0] == 'scn' else pool_split(ct)[1]
             it = iter(items)
-            if ct[0] == 'pool':
+            if ct[0] in ('pool', 'http'):
                 next(it, None)
+            after_load = False
             for tok in ct[start:]:
-                if tok.startswith('now='):
+                if is_ctl(tok):
+                    if tok == 'new' or tok.startswith('obj:'):
+                        after_load = False
+                        hist['%s:object-switch' % fam] = hist.get('%s:object-switch' % fam, 0) + 1
                     continue
                 item = next(it, None)
                 if item is None:
                     break
                 if is_op(tok):
-                    k = '%s:save' % fam
+                    k = '%s:save-after-accepted-load' % fam if after_load else '%s:save' % fam
+                    after_load = False
+                elif tok.startswith('Q~'):
+                    v = item[2] or '?'
+                    f_ = v.split(',')
+                    k = '%s:request:%s:%s' % (ct[0], 'loaded' if f_[0] == '1' else 'EXC' if v == 'EXC' else 'new-session',
+                                                'issued' if len(f_) == 4 and f_[3] != '-' else 'no-cookie')
+                    if item[1]:
+                        seen.add(hl.md5((cfgL + '|Q|' + item[1] + tok).encode()).digest())
                 else:
+                    if item[2] and item[2][:1] == 'A' and ct[0] == 'scn' and ct[2] == '=':
+                        after_load = True
                     v = item[2] or '?'
                     k = '%s:%s:%s' % (fam, cand_kind(tok), v[0] if v[0] in 'AR' else v[:3])
                     if item[1]:
@@ -1119,6 +1769,39 @@ def run_differential(ctx, cases, exe, mexe):
                 hist[k] = hist.get(k, 0) + 1
         mlines.append(model_line(c, o))
         midx.append(i)
+    # the IVs the oracle worked with are D(first block) as computed by the implementation (a fresh cbc object, zero IV):
+    # check them against an independent AES
+    nver = 0
+    for ckh, tab in to_verify.items():
+        ref = aes_ecb_dec(ckh, list(tab.keys()))
+        if ref is None:
+            break
+        nver += len(tab)
+        for y, x in tab.items():
+            if ref[y] != x:
+                ctx.fail('aes-primitive-wrong', 'a raw block decryption through cppcms::crypto::cbc differs from AES (openssl enc -aes-ecb): key %s block %s'
+                         % (ckh, hexs(y)), 'kat aes %s %s' % (ckh, hexs(y)))
+                break
+    # every issued aes cookie is decrypted independently (CBC here, block function by openssl): it must carry exactly the
+    # expiry and data that were saved
+    bykey = {}
+    for pc in PLAIN_CHECKS:
+        bykey.setdefault(pc[0], []).append(pc)
+    ndec = 0
+    for ckh, lst in bykey.items():
+        ref = aes_ecb_dec(ckh, [b for pc in lst for b in blocks16(pc[2][:len(pc[2]) - pc[1]])])
+        if ref is None:
+            break
+        for _, dl_, ci_, plain_, rep_ in lst:
+            ndec += 1
+            got = plain_of_aes_ciphertext(ci_, dl_, ref)
+            if got != plain_:
+                ctx.fail('issued-cookie-plaintext-wrong', 'an issued aes cookie, decrypted independently (AES-CBC, first block discarded, 32-bit length), '
+                         'does not carry the expiry and data that were saved: got %s want %s' % (hexs(got)[:80] if got is not None else 'malformed', hexs(plain_)[:80]), rep_)
+    del PLAIN_CHECKS[:]
+    cov['issued_cookies_decrypted_independently'] = cov.get('issued_cookies_decrypted_independently', 0) + ndec
+    cov['first_blocks_checked_against_independent_aes'] = cov.get('first_blocks_checked_against_independent_aes', 0) + nver
+    cov['independent_aes_available'] = bool(ECB_STATE['available'])
     cov['evaluations'] = cov.get('evaluations', 0) + nev
     cov['scenario_lines'] = cov.get('scenario_lines', 0) + len(cases)
     cov['distinct_nontrivial'] = cov.get('distinct_nontrivial', 0) + len(seen)
@@ -1140,9 +1823,9 @@ def run_differential(ctx, cases, exe, mexe):
                     at, bt = a.split(' '), b.split(' ')
                     k = next((x for x in range(min(len(at), len(bt))) if at[x] != bt[x]), min(len(at), len(bt)))
                     ct = cases[i].split(' ')
-                    start = 4 if ct[0] == 'scn' else pool_split(ct)[1] if ct[0] == 'pool' else len(ct)
-                    ops_idx = [x for x in range(start, len(ct)) if not ct[x].startswith('now=')]
-                    off = k - 1 - (1 if ct[0] == 'pool' else 0)
+                    start = 4 if ct[0] == 'scn' else pool_split(ct)[1] if ct[0] in ('pool', 'http') else len(ct)
+                    ops_idx = [x for x in range(start, len(ct)) if not is_ctl(ct[x])]
+                    off = k - 1 - (1 if ct[0] in ('pool', 'http') else 0)
                     ti = ops_idx[off] if 0 <= off < len(ops_idx) else None
                     ctx.broke('correspondence model vs implementation: differ on case',
                               'operation: %s\nimpl:  %s\nmodel: %s\ncase:  %s' % (
@@ -1164,8 +1847,10 @@ def run(ctx):
     ctx.coverage['trusted_base'] = [
         'Coq 8.16.1 kernel',
         'extraction: ExtrOcamlBasic only, OCaml 4.13.1; ocaml/C05_driver.ml (primitive tables, line protocol)',
-        'harness/C05_cookies.cpp (drives the real session_cookies / hmac_cipher / aes_cipher / session_pool / session_interface; '
+        'harness/C05_cookies.cpp (drives the real session_cookies / hmac_cipher / aes_cipher / session_pool / session_interface / crypto::cbc, and an '
+        'in-process cppcms::service with an SCGI client for the http lines; '
         'computes HMAC tags and raw AES block decryptions through cppcms::crypto for the model; forged-MAC candidates)',
+        'openssl command line tool (enc -d -aes-{128,192,256}-ecb -nopad): independent AES for the IV oracle and the raw block values',
         'checks/C05.py (generators, oracle, specification-side key material and base64url/save_data codecs in Python)',
         'hand model of the C++ control flow (coq/C05/Defs.v), tied by correspondence only (no cxx2v leaf in the anchored functions)',
         'base64url model of C15 (coq/C15/Defs.v, linked to src/base64.cpp by C15)']
@@ -1173,7 +1858,11 @@ def run(ctx):
         'HMAC is an arbitrary function with fixed output length dlen(a); AES block functions satisfy D k (E k b) = b and map 16 bytes to 16 bytes '
         '(Section hypotheses, visible as premises of the theorems)',
         'issued_only: existential unforgeability is a hypothesis on the concrete history (every presented body with a correct tag was issued)',
-        'confidentiality (payload / payload-equality hiding) is NOT proved: computational property of AES-CBC with unpredictable chained IV',
+        'confidentiality (payload / payload-equality hiding) is NOT proved as indistinguishability: computational property of AES-CBC; proved are its '
+        'structural preconditions (IV = nonce chained through own encrypt outputs only, non-interference of presented cookies, distinct nonces '
+        '=> distinct first blocks) and checked on the implementation: no repeated first block / cipher text, IV never a presented or public block',
+        'set_nonce_iv draws fresh random vectors (/dev/urandom): assumption; the oracle only sees that nonces never repeat and never equal a public block',
+        'cbc lines use lengths that are multiples of the block size (as aes_cipher does); AES_cbc_encrypt with a ragged length is outside the model',
         'x86-64: little-endian uint32_t / time_t, 8-byte time_t, bit-field layout of the packed session header',
         'payloads shorter than 2^32 - 12 bytes (uint32_t length field)']
     # the anchored sources of the working tree are compiled into the harness executable with AddressSanitizer (their
@@ -1203,8 +1892,16 @@ def run(ctx):
         'truncation, extensions by 1..17 bytes and by whole blocks, block swaps/drops/duplications, splices of two valid cookies at every '
         'block boundary, transplants to encryptors with a flipped key bit / other hash / other cipher / equivalent key material, arbitrary '
         'and non-canonical base64 strings, and cipher texts with a correct MAC but malformed structure (forged with the key, to drive the '
-        'checks after MAC verification). evaluations = saves + candidate loads + configuration-only lines. A candidate is non-trivial when '
-        'it reaches the encryptor (tag letter C and a valid base64 length); distinct = distinct (loading configuration, cookie string).')
+        'checks after MAC verification). Object histories: saves and loads interleaved on one encryptor object (loading cookies OTHER than '
+        'the one just issued, accepted forged ones, rejected ones), several objects made by one factory (`new`, `obj:k`) that are presented '
+        'the same cookie and save the same or prefix-sharing data; pool lines continue with whole requests (Q: new session_interface = new '
+        'encryptor object, load the presented cookie, set values, save) repeated with identical inputs, tampered / missing / expired cookies '
+        'and the three expiration policies; cbc lines drive cppcms::crypto::cbc itself through every order of set_iv / set_nonce_iv / '
+        'encrypt / decrypt (0..3 blocks), use before an IV, wrong IV sizes; http lines repeat request histories through a real cppcms::service '
+        '(SCGI on a unix socket: Cookie header in, Set-Cookie lines out, session loaded and saved by the framework). '
+        'evaluations = saves + candidate loads + requests + cbc calls + configuration-only lines. A candidate is non-trivial when '
+        'it reaches the encryptor (tag letter C and a valid base64 length); distinct = distinct (loading configuration, cookie string), '
+        'distinct requests, distinct cbc lines.')
     ctx.coverage['exhaustive'] = False
     ctx.coverage['exhaustive_parts'] = ['all single-bit flips of cipher text and cookie text, all truncations of a small valid cookie, '
                                         'for a third of the configurations in quick and all in thorough']
